@@ -399,6 +399,7 @@ func (e *Engine) ExecCall(c *Call) *CallRecord {
 		add(e.parserAgreement(c, v)...)
 	}
 
+	add(attachedCallCheck(e.M, c, res)...)
 	add(v.Apply(res)...)
 
 	// ---- C16 / C06: the charge
@@ -435,6 +436,47 @@ func (e *Engine) ExecCall(c *Call) *CallRecord {
 	add(m.WellFormed(e.W, c.Shard)...)
 	add(m.Conservation(e.W)...)
 	return rec
+}
+
+// attachedCallCheck: when a transfer that carries a contract call credits a contract on the executing shard, the call
+// continues as an output transfer to that contract whose data encodes exactly the attached function and arguments.
+func attachedCallCheck(m *Model, c *Call, res *Result) []Clause {
+	if !transferFns[c.Fn] || attachedFnOutsideDomain(c) {
+		return nil
+	}
+	args := args2bytes(c.Args)
+	var dest []byte
+	idx := -1
+	switch c.Fn {
+	case vmcommon.BuiltInFunctionESDTTransfer:
+		dest, idx = c.Rcv, 2
+	case vmcommon.BuiltInFunctionESDTNFTTransfer:
+		idx = 4
+		if bytes.Equal(c.Caller, c.Rcv) {
+			dest = args[3]
+		} else {
+			dest = c.Rcv
+		}
+	case vmcommon.BuiltInFunctionMultiESDTNFTTransfer:
+		if bytes.Equal(c.Caller, c.Rcv) {
+			dest, idx = args[0], int(3*low64(args[1])+2)
+		} else {
+			dest, idx = c.Rcv, int(3*low64(args[0])+1)
+		}
+	}
+	if idx < 0 || idx >= len(args) || len(dest) != 32 || !m.local(dest, c.Shard) || !vmcommon.IsSmartContractAddress(dest) || c.RetErr {
+		return nil
+	}
+	wantFn, wantArgs := string(args[idx]), args[idx+1:]
+	ot := firstTransfer(res, dest)
+	if ot == nil {
+		return []Clause{clause(pC10, c.Fn+"/attached-call-lost", "%s carries the contract call %q for contract %s on this shard but emitted no output transfer for it", c.String(), wantFn, shortAddr(dest))}
+	}
+	fn, got, err := TxDecode(string(ot.Data))
+	if err != nil || fn != wantFn || !argsEqual(got, wantArgs) {
+		return []Clause{clause(pC10, c.Fn+"/attached-call-content", "%s carries the contract call %q %x but the emitted data is %q", c.String(), wantFn, wantArgs, ot.Data)}
+	}
+	return nil
 }
 
 // attachedFnOutsideDomain reports whether the call carries an attached-call function name that is empty or contains '@'.
